@@ -20,8 +20,18 @@ def main():
         os.environ["VERIF_SEED"] = str(a.seed)
     if a.replay:
         os.environ["VERIF_REPLAY"] = a.replay
-    mod = importlib.import_module("harness.drivers." + a.prop.lower())
-    sys.exit(mod.main())
+    try:
+        mod = importlib.import_module("harness.drivers." + a.prop.lower())
+        rc = mod.main()
+    except SystemExit:
+        raise
+    except BaseException:
+        # an uncaught exception in the harness is a failure of the machinery, never a verdict on the property
+        import traceback
+        traceback.print_exc()
+        print("ERROR %s machinery failure (uncaught exception in the harness)" % a.prop)
+        sys.exit(2)
+    sys.exit(rc)
 
 
 if __name__ == "__main__":
